@@ -105,14 +105,27 @@ Definition sgrad (s : smooth) : vec -> vec := quad_grad (sm_q s) (sm_M s) (sm_Mt
 
 Record case_pdhg := { ph_f : @fn Q; ph_g : @fn Q; ph_M : mat; ph_Mt : mat; ph_tau : Q; ph_sigma : Q;
                       ph_theta : Q; ph_x0 : vec; ph_xr0 : vec; ph_y0 : vec; ph_niter : nat;
-                      ph_trace : list vec; ph_obs : bool; ph_xr : vec; ph_y : vec }.
+                      ph_trace : list vec; ph_obs : bool; ph_xr : vec; ph_y : vec;
+                      ph_acc : option (bool * Q * list Q) }.   (* (primal?, gamma, roots) *)
 Definition check_pdhg (k : case_pdhg) : bool :=
   let step := pdhg_step vec vec addQ scalQ addQ scalQ (lA (ph_M k)) (lA (ph_Mt k))
                         (fun t => fprox (ph_f k) t) (fun s => fcprox (ph_g k) s)
                         (ph_tau k) (ph_sigma k) (ph_theta k) in
   let s0 := {| pd_x := ph_x0 k; pd_xr := ph_xr0 k; pd_y := ph_y0 k |} in
-  let tr := trace step (ph_niter k) s0 in
-  let sf := iter step (ph_niter k) s0 in
+  let tr := match ph_acc k with
+            | None => trace step (ph_niter k) s0
+            | Some (primal, gamma, rts) =>
+                pdhg_acc_run vec vec addQ scalQ addQ scalQ (lA (ph_M k)) (lA (ph_Mt k))
+                             (fun t => fprox (ph_f k) t) (fun s => fcprox (ph_g k) s)
+                             primal rts (ph_tau k) (ph_sigma k) s0
+            end in
+  let sf := last tr s0 in
+  match ph_acc k with
+  | None => true
+  | Some (primal, gamma, rts) =>
+      pdhg_roots_ok (1 # 1000000000000) primal gamma rts (ph_tau k) (ph_sigma k)
+      && Nat.eqb (length rts) (ph_niter k)
+  end &&
   vsclose (ph_trace k) (map (pd_x vec vec) tr)
   && (negb (ph_obs k) || (vclose (ph_xr k) (pd_xr vec vec sf) && vclose (ph_y k) (pd_y vec vec sf))).
 
@@ -136,9 +149,18 @@ Definition check_pg (k : case_pg) : bool :=
                                   {| ap_x := pg_x0 k; ap_y := pg_x0 k; ap_t := 1 |}))
   else vsclose (pg_trace k) (pg_run vec addQ scalQ prox (sgrad (pg_g k)) (pg_gamma k) (pg_lams k) (pg_x0 k)).
 
-Record pblock := { pb_g : @fn Q; pb_M : mat; pb_Mt : mat; pb_sigma : Q; pb_n : nat }.
+(* pb_l: the optional functional l_i; forward_backward_pd needs grad l_i^*, available for (translated) c|.|^2 *)
+Record pblock := { pb_g : @fn Q; pb_M : mat; pb_Mt : mat; pb_sigma : Q; pb_n : nat; pb_l : option (@fn Q) }.
+Fixpoint fcgrad (f : @fn Q) : option (vec -> vec) :=
+  match f with
+  | FL2sq c => Some (fun y => map (fun a => Qred (a / (2 * c))) y)
+  | FTr g b => match fcgrad g with Some G => Some (fun y => vadd (G y) b) | None => None end
+  | _ => None
+  end.
 Definition mkblk (b : pblock) : blk vec vec :=
-  {| bA := lA (pb_M b); bAt := lA (pb_Mt b); bproxGc := fun s => fcprox (pb_g b) s; bsigma := pb_sigma b |}.
+  {| bA := lA (pb_M b); bAt := lA (pb_Mt b); bproxGc := fun s => fcprox (pb_g b) s; bsigma := pb_sigma b;
+     bproxLc := match pb_l b with Some l => Some (fun s => fcprox l s) | None => None end;
+     bgradLc := match pb_l b with Some l => fcgrad l | None => None end |}.
 Definition zeros_of (bs : list pblock) : list vec := map (fun b => repeat 0 (pb_n b)) bs.
 
 Record case_fb := { fb_f : @fn Q; fb_h : smooth; fb_blocks : list pblock; fb_tau : Q; fb_x0 : vec;
